@@ -11,13 +11,16 @@ export GOFLAGS=-mod=mod GOPROXY=off GOSUMDB=off GOTOOLCHAIN=local
 git -C /repo worktree remove --force $wt 2>/dev/null
 git -C /repo worktree add -q $wt HEAD || exit 2
 demo=$(ls $src/*_test.go | head -1)
+# some demonstrations need a build flag (stated in the sub-agent's notes)
+dflags=""
+case $id in C18A|C18B) dflags="-race";; C20B) dflags="-tags inplacetranspose";; esac
 res="{}"
 fail() { echo "$id REJECTED: $1"; git -C /repo worktree remove --force $wt; exit 1; }
 # demo passes without the change
-cp $demo $wt/ && (cd $wt && go test -vet=off -count=1 -run 'TestSeededDemo' . >/tmp/seed_$id.clean.log 2>&1) || fail "demonstration does not pass on the unchanged tree"
+cp $demo $wt/ && (cd $wt && go test $dflags -vet=off -count=1 -run 'TestSeededDemo' . >/tmp/seed_$id.clean.log 2>&1) || fail "demonstration does not pass on the unchanged tree"
 (cd $wt && git apply $src/patch.diff) || fail "patch does not apply"
 (cd $wt && go build ./... ) >/dev/null 2>&1 || fail "does not build"
-(cd $wt && go test -vet=off -count=1 -run 'TestSeededDemo' . >/tmp/seed_$id.mut.log 2>&1) && fail "demonstration passes with the change"
+(cd $wt && go test $dflags -vet=off -count=1 -run 'TestSeededDemo' . >/tmp/seed_$id.mut.log 2>&1) && fail "demonstration passes with the change"
 rm $wt/$(basename $demo)
 suite() { (cd $wt && go test -vet=off -count=1 ./... 2>&1 | grep -E "^--- FAIL" | grep -v TestSaveLoadNumpy); }
 s=$(suite); if [ -n "$s" ]; then s=$(suite); fi
